@@ -183,6 +183,36 @@ func c08Run(c c08Case) (sig, msg string, nontrivial bool, inconclusive string) {
 		})
 	case "truncate":
 		opErr = sim.GuardT(30*time.Second, func() error { return book.VerifTruncate(ctx) })
+	case "reads":
+		// every read entry point, for a hash that is live, one that was checkpointed (J=1: after a real truncation) and
+		// one that does not exist; what they return is other properties' business - here they must return, and the
+		// probe afterwards (a writer, then a reader) must still complete
+		if c.J == 1 {
+			if g := sim.GuardT(30*time.Second, func() error { return book.VerifTruncate(context.Background()) }); g != nil {
+				return "", "", false, "truncate before reads: " + g.Error()
+			}
+		}
+		ord := w.Arch.Order
+		var hashes []ref.Hash
+		if len(ord) > 2 {
+			hashes = append(hashes, ord[1], ord[len(ord)-1])
+		}
+		hashes = append(hashes, ref.Hash{0x42, 0x17})
+		opErr = sim.GuardT(20*time.Second, func() error {
+			for _, h := range hashes {
+				if v := w.Arch.V[h]; v != nil {
+					book.ReadTransactionByHash(ctx, v.Transaction.Hash)
+				} else {
+					book.ReadTransactionByHash(ctx, h)
+				}
+				book.ReadVertex(ctx, h)
+			}
+			book.ReadDAGTransactionsByAddress(ctx, w.Wallets[1].Addr)
+			book.ReadDAGTransactionsByAddress(ctx, "no-such-address")
+			book.CalculateBalance(ctx, w.Wallets[2].Addr)
+			book.CalculateBalance(ctx, "no-such-address")
+			return nil
+		})
 	case "overflow":
 		// ping-pong of nearly the whole supply: the receiver's gross inflow exceeds 2^64, the funds walk
 		// of the next validation exits early with an arithmetic error (no cancellation involved).
@@ -209,7 +239,7 @@ func c08Run(c c08Case) (sig, msg string, nontrivial bool, inconclusive string) {
 	if cc != nil {
 		nontrivial = cc.triggered() && c.K < ancN-1
 	} else {
-		nontrivial = opErr != nil || c.Op == "truncate" || c.Shape == "forked"
+		nontrivial = opErr != nil || c.Op == "truncate" || c.Shape == "forked" || c.Op == "reads"
 	}
 	_ = early
 	after := sim.SettledParkedWalkers()
@@ -439,6 +469,10 @@ func TestC08(t *testing.T) {
 			{Op: "truncate", Shape: "chain", N: 1150, K: -1},
 			{Op: "truncate", Shape: "chain", N: 1150, K: 3},
 			{Op: "truncate", Shape: "chain", N: 30, K: -1},
+			{Op: "reads", Shape: "chain", N: 12, K: -1},
+			{Op: "reads", Shape: "forked", N: 12, K: -1},
+			{Op: "reads", Shape: "chain", N: 1150, K: -1, J: 1},
+			{Op: "reads", Shape: "chain", N: 1150, K: 2, J: 1},
 			{Op: "streamwriter", Shape: "chain", N: 260, J: 5, WOp: "createleaf", K: -1},
 			{Op: "streamwriter", Shape: "chain", N: 260, J: 120, WOp: "addleaf", K: -1},
 		} {
